@@ -258,7 +258,7 @@ def handle (line : String) : String :=
             | some (name, rule) =>
               let its ← items rels exts raw []
               let real ← resolve its endOff
-              let env : Env := { strs := rule.strs, blocks, filesize := c.buf.length, ext := c.ext, rules := verdicts, disabled := c.disabled }
+              let env : Env := { strs := rule.strs, blocks, filesize := c.buf.length, ext := c.ext, rules := verdicts, disabled := c.disabled, fops := Driver.Cond.ieee }
               let model := compileRule (ctxOfEnv env) rule.cond
               match firstDiff real model with
               | some k =>
